@@ -117,6 +117,10 @@ class Recorder:
         import gaddlemaps._backend as B
         rec = self
         self.B = B
+        import gaddlemaps._transform_molecule as TM
+        self.TM = TM
+        self.saved_displ = getattr(TM, "find_atom_random_displ", None)
+        o_displ = self.saved_displ
         self.saved_b = {n: getattr(B, n) for n in self.BNAMES}
         self.saved_r = {n: getattr(np.random, n) for n in self.RNAMES}
         o_calc, o_acc, o_move, o_rot = (self.saved_b[n] for n in self.BNAMES)
@@ -178,6 +182,14 @@ class Recorder:
             rec.keep.append(pos)
             return out
 
+        def w_displ(atoms_pos, bonds_info, atom_index, *a, **kw):
+            # move_mol_atom resolves this module-level name when called: the atom drawn and its displacement
+            d = o_displ(atoms_pos, bonds_info, atom_index, *a, **kw)
+            if rec.in_atom and rec.cur is not None and "atom_k" not in rec.cur:
+                rec.cur["atom_k"] = int(atom_index)
+                rec.cur["atom_d"] = np.array(d, dtype=float).reshape(-1)
+            return d
+
         def w_rot(axis, theta):
             m = o_rot(axis, theta)
             if not rec.in_atom and rec.cur is not None:
@@ -229,6 +241,8 @@ class Recorder:
             return v
 
         B.Chi2Calculator, B.accept_metropolis, B.move_mol_atom, B.rotation_matrix = Calc, w_accept, w_move, w_rot
+        if o_displ is not None:
+            TM.find_atom_random_displ = w_displ
         np.random.choice, np.random.normal, np.random.uniform, np.random.rand = w_choice, w_normal, w_uniform, w_rand
         return self
 
@@ -237,6 +251,8 @@ class Recorder:
             setattr(self.B, n, v)
         for n, v in self.saved_r.items():
             setattr(np.random, n, v)
+        if self.saved_displ is not None:
+            self.TM.find_atom_random_displ = self.saved_displ
         return False
 
 
@@ -373,6 +389,81 @@ def gen_degenerate(rs, budget=None):
     return case
 
 
+def gen_restr(rs, n1, n2):
+    rk = rs.randint(0, 5)
+    if rk <= 1:
+        return []
+    if rk == 2:
+        return [[int(rs.randint(n1)), int(rs.randint(n2))] for _ in range(int(rs.randint(1, n1 + 1)))]
+    if rk == 3:
+        return [[int(i), int(rs.randint(n2))] for i in rs.permutation(n1)]
+    i = int(rs.randint(n1))
+    return [[i, int(rs.randint(n2))], [i, int(rs.randint(n2))]] + \
+        [[int(rs.randint(n1)), int(rs.randint(n2))] for _ in range(int(rs.randint(0, 3)))]
+
+
+def cyclic_bonds(rs):
+    """bond graphs with rings: ring + tails, two rings fused on an edge (+ tail), random connected cyclic graphs;
+    atoms relabelled at random, bonds in random order and orientation (the table order decides the traversal)"""
+    from molgen import random_graph
+    kind = ["ring_tail", "ring_tail", "fused", "random"][rs.randint(0, 4)]
+    if kind == "ring_tail":
+        r = int(rs.randint(3, 7))
+        edges = [(i, (i + 1) % r) for i in range(r)]
+        n = r
+        for t in range(int(rs.randint(1, 5))):
+            edges.append((int(rs.randint(0, r)) if t == 0 or rs.randint(2) else int(rs.randint(0, n)), n))
+            n += 1
+    elif kind == "fused":
+        a, b = int(rs.randint(3, 6)), int(rs.randint(3, 6))
+        edges = [(i, (i + 1) % a) for i in range(a)]
+        n = a
+        prev = 1
+        for _ in range(b - 2):
+            edges.append((prev, n))
+            prev = n
+            n += 1
+        edges.append((prev, 0))
+        for _ in range(int(rs.randint(0, 3))):
+            edges.append((int(rs.randint(0, n)), n))
+            n += 1
+    else:
+        n = int(rs.randint(4, 11))
+        edges = list(random_graph(rs, n, int(rs.randint(1, 4))))
+    perm = rs.permutation(n)
+    edges = [(int(perm[a]), int(perm[b])) for a, b in edges]
+    edges = [list(e) if rs.randint(2) else [e[1], e[0]] for e in edges]
+    edges = [edges[i] for i in rs.permutation(len(edges))]
+    return kind, n, edges
+
+
+def gen_cyclic(rs, budget=None):
+    """mobile molecule whose bond graph has rings, single-atom moves enabled"""
+    case = gen_case(rs, budget=budget)
+    kind, n2, bonds = cyclic_bonds(rs)
+    mol2 = rs.uniform(-0.6, 0.6, size=(n2, 3)) + rs.normal(0, 0.3, size=3)
+    sub = sorted(set([2] + [int(x) for x in SUBSETS[rs.randint(len(SUBSETS))]]))
+    if rs.randint(2) == 0:
+        sub = [2]
+    case.update({"mol2": mol2.tolist(), "bonds": bonds, "sim_type": sub, "graph": kind,
+                 "restr": gen_restr(rs, len(case["mol1"]), n2)})
+    if case["n_steps"] > 160:
+        case["n_steps"] = int(rs.choice([10, 40, 100, 160]))
+    if case.get("script"):
+        case["script"]["period"] = max(1, case["n_steps"] + int(rs.randint(-1, 2)))
+    return case
+
+
+def ring_tail_cases():
+    """corpus: the witness of seeded/C09-9 - ring 0-1-2-3 with tail 1-4-5, only single-atom moves"""
+    rs = np.random.RandomState(99)
+    mol1 = rs.uniform(-0.6, 0.6, size=(6, 3)).tolist()
+    mol2 = [[0.0, 0.0, 0.0], [0.5, 0.1, 0.0], [0.6, 0.6, 0.1], [0.05, 0.55, -0.1], [1.0, -0.2, 0.2], [1.45, 0.0, 0.1]]
+    return [{"kind": "run", "mode": "real", "seed": seed, "mol1": mol1, "mol2": mol2,
+             "bonds": [[0, 1], [1, 2], [2, 3], [3, 0], [1, 4], [4, 5]], "restr": [], "sim_type": [2], "n_steps": 30,
+             "sigma_scale": 0.5, "width": 0.3, "graph": "ring_tail"} for seed in range(5)]
+
+
 def demo_cases():
     """the witness of seeded/C09-8 (= seeded/C06-3): 5-bead branched molecule typed on the x axis"""
     mol1 = [[0.0, 0.3, 0.1], [0.5, -0.3, 0.0], [1.0, 0.3, -0.1], [1.5, -0.3, 0.0], [2.0, 0.3, 0.1], [2.5, -0.3, 0.0],
@@ -471,6 +562,42 @@ def naive_chi2(fixed, mobile, restr, decided=None):
     return total * 1.1 ** (len(mobile) - len(used))
 
 
+def traversal_edges(table, k):
+    """bonds by which the propagation from atom k first reaches every other atom: neighbours of k in table order, then
+    last in first out; an atom belongs to the first bond that reaches it"""
+    seen, stack, edges = {k}, [], []
+    for j, b in table.get(k, []):
+        if j not in seen:
+            seen.add(j)
+            stack.append((k, j, b))
+    while stack:
+        p, c, b = stack.pop()
+        edges.append((p, c, b))
+        for j, b2 in table.get(c, []):
+            if j not in seen:
+                seen.add(j)
+                stack.append((c, j, b2))
+    return edges
+
+
+def bridge_edges(table):
+    """bonds whose removal disconnects the bond graph (they belong to every traversal tree)"""
+    out = []
+    for a, lst in table.items():
+        for b, length in lst:
+            if a < b:
+                comp, todo = {a}, [a]
+                while todo:
+                    i = todo.pop()
+                    for j, _ in table.get(i, []):
+                        if j not in comp and {i, j} != {a, b}:
+                            comp.add(j)
+                            todo.append(j)
+                if b not in comp:
+                    out.append((a, b, length))
+    return out
+
+
 def pairdist(a):
     return np.sqrt(((a[:, None, :] - a[None, :, :]) ** 2).sum(-1))
 
@@ -545,6 +672,7 @@ def oracle_trace(case, tr):
     e_min = e_held
     count = 0
     table = tr["info"]
+    bridges = bridge_edges(table)
     for k, st in enumerate(tr["steps"], 1):
         if len(bad) > 6:
             break
@@ -600,11 +728,17 @@ def oracle_trace(case, tr):
                 bad.append("step %d: the single-atom move was not applied to the held configuration" % k)
             if not same_bits(st["atom_out"], test):
                 bad.append("step %d: the evaluated proposal is not the result of the single-atom move" % k)
-            for a, lst in table.items():          # trees: every bond keeps its tabulated length
-                for b, length in lst:
-                    if not undefined and abs(np.linalg.norm(test[a] - test[b]) - length) > TOL * max(length, 1.0):
-                        bad.append("step %d: single-atom move changed bond %d-%d" % (k, a, b))
-                        break
+            # bond-preserving: every bond of the traversal tree rooted at the moved atom, in particular every bridge
+            # (on a tree: every bond), has its tabulated length
+            keep = {(min(a, b), max(a, b)): length for a, b, length in bridges}
+            if st.get("atom_k") is not None:
+                for a, b, length in traversal_edges(table, st["atom_k"]):
+                    keep[(min(a, b), max(a, b))] = length
+            for (a, b), length in sorted(keep.items()):
+                if not undefined and abs(np.linalg.norm(test[a] - test[b]) - length) > TOL * max(length, 1.0):
+                    bad.append("step %d: single-atom move of atom %s left bond %d-%d at %.9g instead of %.9g" % (
+                        k, st.get("atom_k"), a, b, float(np.linalg.norm(test[a] - test[b])), length))
+                    break
             if not undefined and (np.abs(test - held).max(axis=1) > 0).sum() < 1:
                 bad.append("step %d: single-atom move moved nothing" % k)
         else:
@@ -737,6 +871,26 @@ def geo_terms(tr, held_of):
     return out
 
 
+def table_term(info):
+    return "[" + "; ".join("Some [" + "; ".join("(%d%%nat, %s)" % (j, fl(b)) for j, b in info[i]) + "]"
+                           for i in range(len(info))) + "]"
+
+
+def atom_terms(tr):
+    """chk_atom terms for the single-atom moves whose atom and (finite) displacement were observed"""
+    out, tb = [], None
+    for k, st in enumerate(tr["steps"]):
+        if tuple(st["gens"]) != ("atom",) or "atom_k" not in st or "test" not in st:
+            continue
+        held, d = st["atom_in"], st["atom_d"]
+        if not (np.isfinite(held).all() and np.isfinite(d).all() and d.shape == (3,)):
+            continue
+        tb = tb or table_term(tr["info"])
+        obs = "(Ok %s)" % vlist(st["test"]) if np.isfinite(st["test"]).all() else "(Err EDiv0)"
+        out.append(("chk_atom %s %s %d%%nat %s %s" % (vlist(held), tb, st["atom_k"], v3(d), obs), k))
+    return out
+
+
 def helds(tr):
     """configuration held before each step, from the recorded decisions"""
     h, out = tr["init"], []
@@ -789,7 +943,7 @@ def corpus_cases():
         c = gen_case(rs, mode="scripted", budget=b)
         c["script"]["kind"] = "zero"
         out.append(c)
-    return out + demo_cases()
+    return out + demo_cases() + ring_tail_cases()
 
 
 def corpus(ctx):
@@ -825,8 +979,10 @@ def correspondence(ctx):
     S["runs"] = 0
     pydis = []
     gcases = []
+    acases = []
+    max_atom = ctx.n(2000, 30000)
     runs = [gen_case(rs) for _ in range(n_runs)] + [gen_case(rs, budget=b) for b in budgets_extra(ctx)] + \
-        [gen_degenerate(rs) for _ in range(ctx.n(60, 800))] + corpus_cases()
+        [gen_degenerate(rs) for _ in range(ctx.n(60, 800))] + [gen_cyclic(rs) for _ in range(ctx.n(90, 1200))] + corpus_cases()
     for case in runs:
         tr = run_case(case)
         # S on the same run
@@ -856,7 +1012,7 @@ def correspondence(ctx):
             if st.get("counter") is not None:
                 hist["counter_observed"] += 1
         hist["resets"] += sum(1 for s in tr["steps"][1:] if s.get("counter") == 0)
-        dk = case.get("degenerate", "generic")
+        dk = case.get("degenerate") or case.get("graph") or "generic"
         hist.setdefault("start_geometry", {})
         hist["start_geometry"][dk] = hist["start_geometry"].get(dk, 0) + 1
         hist["undefined_trials"] = hist.get("undefined_trials", 0) + sum(
@@ -880,12 +1036,18 @@ def correspondence(ctx):
         if len(gcases) < max_geo:
             for term_g, k in geo_terms(tr, helds(tr))[: max(4, max_geo // len(runs) + 1)]:
                 gcases.append((term_g, dict(case, geometry_step=k + 1)))
+        at = atom_terms(tr)
+        hist["atom_moves_observed"] = hist.get("atom_moves_observed", 0) + len(at)
+        if len(acases) < max_atom:
+            for term_a, k in at[: (16 if case.get("graph") else 5)]:
+                acases.append((term_a, dict(case, geometry_step=k + 1)))
     ctx.sample({k: runs[0][k] for k in ("mode", "seed", "sim_type", "n_steps", "restr", "bonds")})
     ctx.sample({k: runs[-1].get(k) for k in ("mode", "seed", "sim_type", "n_steps", "restr", "script", "degenerate")})
-    for term_g, m in gcases:
+    for term_g, m in gcases + acases:
         cases.append(term_g)
         meta.append(m)
     hist["geometry_cases"] = len(gcases)
+    hist["atom_move_cases"] = len(acases)
     # direct calls of accept_metropolis
     accs = list(CORPUS_ACCEPT) + [gen_accept(rs) for _ in range(n_acc)]
     for e0, e1, u in accs:
@@ -935,7 +1097,7 @@ def oracle(ctx, scale):
     n = ctx.n(60, 1500) * scale
     fails = 0
     for i in range(n):
-        case = gen_degenerate(rs) if i % 4 == 3 else gen_case(rs)
+        case = gen_degenerate(rs) if i % 4 == 3 else gen_cyclic(rs) if i % 4 == 1 else gen_case(rs)
         tr = run_case(case)
         bad = oracle_trace(case, tr)
         ctx.count(("srun", case["seed"], case["n_steps"], tuple(case["sim_type"])), nontrivial(tr))
